@@ -146,6 +146,13 @@ theorem faithful_full (fs : FFields) (gt : Bytes) (hgt : Blank gt) (hv : FValidF
     ∃ T, parse (frenderF fs ++ gt) = .ok T false ∧ T.map Tok.erase = dtapeF fs 0 :=
   ⟨_, parse_full fs gt hgt hv hb, ftapeF_erase fs 0 gt⟩
 
+/-- the same behind a UTF-8 BOM: only the flag differs -/
+theorem faithful_full_bom (fs : FFields) (gt : Bytes) (hgt : Blank gt) (hv : FValidF fs gt)
+    (hb : hasBom (frenderF fs ++ gt) = false) :
+    ∃ T, parse (0xef :: 0xbb :: 0xbf :: (frenderF fs ++ gt)) = .ok T true ∧ T.map Tok.erase = dtapeF fs 0 := by
+  refine ⟨ftapeF fs 0 gt, ?_, ftapeF_erase fs 0 gt⟩
+  rw [parse_bom' _ hb, parse_full fs gt hgt hv hb]; rfl
+
 /-! ### the document without its layout -/
 
 mutual
